@@ -50,7 +50,8 @@ ASSUMPTIONS = [
     "2-d grids for Mpsa / Biot lie in the xy-plane; embedded 2-d Mpfa grids are discretised with ambient_dimension = 3",
     "num_subproblems <= number of cells",
 ]
-REQUIRED = {"mpfa": 0.2, "mpsa": 0.15, "biot": 0.15, "mode-split": 0.2, "mode-partial": 0.15, "mode-update": 0.08,
+REQUIRED = {"mpfa": 0.2, "mpsa": 0.15, "biot": 0.15, "mode-split": 0.2, "mode-partial": 0.15, "mode-update": 0.05,
+            "mode-update-api": 0.05,
             "mode-inverter": 0.05, "dim2": 0.2, "dim3": 0.2, "split-shared-face": 0.1, "partial-proper": 0.1,
             "by-memory": 0.05, "python-inverter": 0.1,
             "active-cells-reindexed": 0.05, "face-in-3-subproblems": 0.02, "biot-het-alpha-reindexed": 0.02}
@@ -68,9 +69,42 @@ def _known_biot_update(spec):
     return spec["disc"] == "biot" and spec["var"]["mode"] == "update"
 
 
+def _incomplete_update_cells(g, stencil_cells, active_faces):
+    """Cells with an active face for which some node has a neighbour cell outside the update stencil: their cell-wise
+    (divergence / consistency) rows are assembled from an incomplete set of interaction regions."""
+    cn = g.cell_nodes().astype(int)
+    act = np.zeros(g.num_cells, dtype=int)
+    act[np.unique(stencil_cells)] = 1
+    node_ok = (cn @ act) == np.asarray(cn.sum(axis=1)).ravel()
+    cell_ok = (act > 0) & ((cn.T @ (~node_ok).astype(int)) == 0)
+    touched = np.zeros(g.num_cells, dtype=bool)
+    if len(active_faces):
+        touched[np.unique(abs(g.cell_faces).tocsr()[np.asarray(active_faces, dtype=int)].indices)] = True
+    return np.where(touched & ~cell_ok)[0]
+
+
+def _known_biot_fringe(spec):
+    """Biot update (flag or update_discretization()) whose stencil has cells with an active face but an incomplete
+    node neighbourhood (e.g. the corner cells of the stencil on a Cartesian lattice)."""
+    v = spec["var"]
+    if spec["disc"] != "biot" or v["mode"] not in ("update", "update-api"):
+        return False
+    import porepy as pp
+    from porepy.numerics.fv import _fvutils
+
+    g = build_grid(spec["grid"])
+    specified, _, _ = _partial_sets(g, v["partial"])
+    kind = v["partial"]["kind"]
+    if v["mode"] == "update-api" and kind == "cells":
+        specified = pp.partition.overlap(g, specified, 1)
+    cells, faces = _fvutils.cell_ind_for_partial_update(g, **{kind: specified})
+    return _incomplete_update_cells(g, cells, faces).size > 0
+
+
 KNOWN = {
     "C14-mpfa-embedded-2d-vector-source-subgrid-rotation": _known_tilted_vector_source,
     "C14-biot-update-discretization-typeerror": _known_biot_update,
+    "C14-biot-update-rewrites-incomplete-cell-rows": _known_biot_fringe,
 }
 
 
@@ -99,17 +133,17 @@ def _is_tilted(grid):
 def _spec(draw, tier):
     disc = draw(st.sampled_from(["mpfa", "mpfa", "mpfa", "mpsa", "mpsa", "biot", "biot", "biot"]))
     big = tier == "thorough"
-    modes = ["split", "split", "split", "partial", "partial", "update", "inverter"]
+    modes = ["split", "split", "split", "partial", "partial", "update", "update-api", "inverter"]
     if disc == "biot":
         # restricted discretisations are where the cell-wise Biot coefficients are re-indexed: keep them frequent
-        modes = ["split", "split", "partial", "partial", "partial", "update", "update", "inverter"]
+        modes = ["split", "split", "partial", "partial", "partial", "update", "update", "update-api", "update-api", "inverter"]
     mode = draw(st.sampled_from(modes))
     # a quarter of the split cases use a small tetrahedral lattice with 4-6 subproblems: its coordinate-based
     # partition has irregular boundaries, the only way a face ends up in three or more subproblems (probe: ~60 %
     # of such cases; practically never for triangles or structured partitions)
     simplex_split = mode == "split" and draw(st.integers(0, 3)) == 0
     if disc == "mpfa":
-        restricted = mode in ("partial", "update")  # larger lattices: active cells a proper subset of the grid
+        restricted = mode in ("partial", "update", "update-api")  # larger lattices: active cells a proper subset of the grid
         grid = draw(grid_spec(dims=(2, 2, 3), poly=False, max_amp=0.15, max_n=(7 if big else 6) if restricted else (5 if big else 4),
                               max_n3=3 if (big or restricted) else 2))
         if simplex_split:
@@ -119,9 +153,11 @@ def _spec(draw, tier):
         par = {"K": draw(fv.spd_spec(het=True))}
         bc = draw(fv.bc_spec())
     else:
-        if disc == "biot" and mode in ("partial", "update"):
+        if disc == "biot" and mode in ("partial", "update", "update-api"):
             # larger 2-d lattices so that the active cells are a proper, non-leading subset of the grid
-            grid = draw(mech_grid_spec(max_n=6 if big else 5, max_n3=2, dims=(2, 2, 2, 3)))
+            # (update modes: up to 7x7, so that the update stencil has fringe cells inside the grid)
+            mx = 7 if mode in ("update", "update-api") else (6 if big else 5)
+            grid = draw(mech_grid_spec(max_n=mx, max_n3=2, dims=(2, 2, 2, 3)))
         else:
             grid = draw(mech_grid_spec(max_n=4 if big else 3, max_n3=2, dims=(2, 2, 3)))
         if simplex_split:
@@ -151,6 +187,12 @@ def _spec(draw, tier):
         if simplex_split and ncell >= 4:
             var["k"] = min(ncell, 4 if heavy else draw(st.integers(4, 6)))
         var["by_mem"] = draw(st.sampled_from([False, False, True]))
+    if mode == "update-api":
+        # Discretization.update_discretization(): data["update_discretization"] = {"modified_cells" | "modified_faces"};
+        # the parameters of modified cells are multiplied by `fac` before the update
+        var["partial"] = {"kind": draw(st.sampled_from(["cells", "cells", "faces"])),
+                          "sel": draw(st.lists(st.one_of(st.integers(0, 3), st.integers(0, 10**4)), min_size=1, max_size=3)),
+                          "fac": draw(st.sampled_from([1.0, 0.4, 2.5]))}
     if mode in ("partial", "update"):
         kind = draw(st.sampled_from(["cells", "faces", "nodes", "nodes"]))
         # indices are taken modulo the entity count; small values sit at a corner of the lattice, where the
@@ -159,7 +201,7 @@ def _spec(draw, tier):
                                                              min_size=1, max_size=3))}
         if ncell >= 4:
             var["k"] = draw(st.sampled_from([1, 1, 2]))
-    if disc == "mpfa" and _is_tilted(grid) and mode != "inverter":
+    if disc == "mpfa" and _is_tilted(grid) and mode not in ("inverter", "update-api"):
         # vector-source matrices of tilted 2-d grids: see KNOWN; half of the cases skip them so that the other
         # matrices of this class stay under test while the finding is open
         var["skip_vs"] = draw(st.booleans())
@@ -208,6 +250,31 @@ def _setup(spec, g):
     a = spec["par"]["alpha"]
     base["scalar_vector_mappings"] = fv.build_alphas(a["a"], a["b"], g, a["seed"], a.get("amp"))
     return pp.Biot(kw), kw, base, "inverter"
+
+
+def _changed_base(disc, base, cells, fac):
+    """Copy of the base parameters with the cell-wise parameters of `cells` multiplied by `fac` (new objects)."""
+    import porepy as pp
+
+    out = dict(base)
+    cells = np.asarray(cells, dtype=int)
+    if disc == "mpfa":
+        K = base["second_order_tensor"].copy()
+        K.values[:, :, cells] *= fac
+        out["second_order_tensor"] = K
+        return out
+    C = base["fourth_order_tensor"]
+    mu, lm = C.mu.copy(), C.lmbda.copy()
+    mu[cells] *= fac
+    lm[cells] *= fac
+    out["fourth_order_tensor"] = pp.FourthOrderTensor(mu, lm)
+    if disc == "biot":
+        al = dict(base["scalar_vector_mappings"])
+        b = al["b"].copy()
+        b.values[:, :, cells] *= fac
+        al["b"] = b
+        out["scalar_vector_mappings"] = al
+    return out
 
 
 def _run(discr, kw, g, base, extra, data=None):
@@ -358,6 +425,28 @@ def check(spec):
     ps = var["partial"]
     labels.append("partial-" + ps["kind"])
     specified, target_faces, target_cells = _partial_sets(g, ps)
+
+    if var["mode"] == "update-api":
+        # the documented route: full discretisation, parameters of the modified cells changed, then
+        # discr.update_discretization(g, data) with data["update_discretization"]; reference = a fresh one-piece
+        # discretisation of the changed problem
+        data = _run(discr, kw, g, base, extra)
+        base2 = _changed_base(disc, base, specified if ps["kind"] == "cells" else np.zeros(0, dtype=int), ps.get("fac", 1.0))
+        data[pp.PARAMETERS][kw].update(base2)
+        data["update_discretization"] = {"modified_" + ps["kind"]: np.asarray(specified, dtype=int)}
+        discr.update_discretization(g, data)
+        v = _flatten(data[pp.DISCRETIZATION_MATRICES][kw])
+        ref2 = _flatten(_run(discr, kw, g, base2, {})[pp.DISCRETIZATION_MATRICES][kw])
+        af = np.asarray(data[pp.PARAMETERS][kw].get("active_faces", []), dtype=int)
+        labels.extend(_subset_labels(disc, g, data[pp.PARAMETERS][kw].get("active_cells", np.arange(g.num_cells))))
+        if ps.get("fac", 1.0) != 1.0 and ps["kind"] == "cells":
+            labels.append("update-changed-parameters")
+        if 0 < af.size < g.num_faces:
+            labels.append("partial-proper")
+            nontrivial = True
+        _compare_all(ref2, v, "update-api", skip)
+        return {"labels": labels, "nontrivial": nontrivial}
+
     extra["specified_" + ps["kind"]] = specified
 
     if var["mode"] == "update":
@@ -370,18 +459,9 @@ def check(spec):
         if 0 < af.size < g.num_faces:
             labels.append("partial-proper")
             nontrivial = True
-        # face-row matrices: nothing may change (as in the repository's update tests); Biot cell-row matrices:
-        # only the rows of the targeted cells are claimed (the code documents its choice of updated cells as a guess)
-        cell_named = tuple(n for n in ref if n.split("/")[0] in CELL_ROW)
-        _compare_all(ref, v, "update", tuple(skip) + cell_named)
-        for name in cell_named:
-            A, B = ref[name], v[name]
-            require(A.shape == B.shape, "update-shape", f"{name}: {A.shape} vs {B.shape}")
-            if target_cells.size:
-                e = _maxabs((A[target_cells] - B[target_cells]).tocsr())
-                s = max(_maxabs(A), _maxabs(B))
-                require(e <= RTOL * s + 1e-12 * max(_maxabs(M) for M in ref.values()), "update-cell-rows",
-                        lambda: f"{name}: rows of targeted cells differ by {e:.3e} > {RTOL:g} * {s:.3e}")
+        # an update with unchanged parameters may change nothing (as in the repository's update tests): all rows of all
+        # matrices, including Biot's cell-row matrices (see KNOWN: C14-biot-update-rewrites-incomplete-cell-rows)
+        _compare_all(ref, v, "update", skip)
         return {"labels": labels, "nontrivial": nontrivial}
 
     data = _run(discr, kw, g, base, extra)
